@@ -947,3 +947,47 @@ Lemma drafts_only_explicit :
   skipn (length jws_alg_table) jws_alg_table_drafts = [] /\
   skipn (length jwe_zip_table) jwe_zip_table_drafts = [].
 Proof. vm_compute. repeat split; try reflexivity; discriminate. Qed.
+
+(* ---------- rfc7797 (and every JWS entry point): the caller's registry is kept ---------- *)
+(* registry selection of rfc7797.serialize_compact / deserialize_compact / serialize_json /
+   deserialize_json, with or without "b64" in the header, and of the jws.* functions:
+   `registry is None` => built from algorithms (b64 present) / construct_registry(algorithms);
+   otherwise the caller's object, whatever its class (base class, rfc7797 subclass, a
+   subclass of either) and whatever algorithms= says *)
+Lemma registry_kept_7797 :
+  (forall w k algorithms r, jws_entry_select w k algorithms (Some r) = r) /\
+  (forall w algorithms, jws_entry_select w (K7797 true) algorithms None = algorithms) /\
+  (forall w algorithms, jws_entry_select w (K7797 false) algorithms None = construct_registry w algorithms) /\
+  (forall w k algorithms c allowed algs,
+     fst (step w (CallJwsSign k algorithms (RFresh c allowed) algs)) =
+     VUnit (runit (gate_all (jws_member_gate w allowed) algs))) /\
+  (forall w k algorithms c allowed algs,
+     fst (step w (CallJwsVerify k algorithms (RFresh c allowed) algs)) =
+     VUnit (do ok <- jws_verify_members good_sig w allowed algs;
+            if ok then Ok tt else Err (EJose BadSignatureError))) /\
+  (forall w k algorithms i o algs, nth_error (w_regs w) i = Some o ->
+     fst (step w (CallJwsSign k algorithms (RRef i) algs)) =
+     VUnit (runit (gate_all (jws_member_gate w (ro_allowed o)) algs)) /\
+     fst (step w (CallJwsVerify k algorithms (RRef i) algs)) =
+     VUnit (do ok <- jws_verify_members good_sig w (ro_allowed o) algs;
+            if ok then Ok tt else Err (EJose BadSignatureError))).
+Proof.
+  split; [intros w k a r; destruct k as [|[|]]; reflexivity|].
+  split; [reflexivity|]. split; [reflexivity|].
+  split; [intros w k a c al algs; destruct k as [|[|]]; reflexivity|].
+  split; [intros w k a c al algs; destruct k as [|[|]]; reflexivity|].
+  intros w k a i o algs H. simpl. unfold with_reg, resolve. rewrite H. simpl.
+  split; destruct k as [|[|]]; reflexivity.
+Qed.
+
+(* instance: a base-class registry listing only HS512, header with "b64", no algorithms=:
+   HS256 (recommended, not listed) is refused, HS512 signs and verifies; the same with a
+   subclass object and with an algorithms= that would have allowed HS256 *)
+Lemma registry_kept_7797_instance :
+  fst (step w0 (CallJwsSign (K7797 true) PNone (RFresh RcJws (PList [pname "HS512"])) [pname "HS256"])) = VUnit unsupported /\
+  fst (step w0 (CallJwsSign (K7797 true) PNone (RFresh RcJws (PList [pname "HS512"])) [pname "HS512"])) = VUnit (Ok tt) /\
+  fst (step w0 (CallJwsVerify (K7797 true) PNone (RFresh RcJws (PList [pname "HS512"])) [pname "HS512"])) = VUnit (Ok tt) /\
+  fst (step w0 (CallJwsSign (K7797 true) (PList [pname "HS256"]) (RFresh RcJwsSub (PList [pname "HS512"])) [pname "HS256"])) = VUnit unsupported /\
+  fst (step w0 (CallJwsSign (K7797 true) PNone RAbsent [pname "HS256"])) = VUnit (Ok tt) /\
+  fst (step w0 (CallJwsSign (K7797 true) PNone RAbsent [pname "HS512"])) = VUnit unsupported.
+Proof. vm_compute. repeat split; reflexivity. Qed.
